@@ -56,6 +56,81 @@ class CFG:
     def reachable_from(self, start, blocked=()):
         return self._reach_from(start, blocked)
 
+    def reachable_from_flags(self, start, blocked=(), limit=20000):
+        """Blocks reachable from `start` when the boolean locals that only ever hold constants (or copies of such locals) are followed
+        along the way: a switch on one of them whose value is known on the path takes only that branch.  This is reachability in the
+        program that threading those constant jumps would produce, without copying any block — so it also sees through stretches that
+        contain calls.  A flag nothing is known about (at `start`, or after any other kind of assignment) allows both branches."""
+        body = self.body
+
+        def place_of(o):
+            pl = o.get("c") or o.get("m")
+            return tuple(pl) if pl is not None else None
+        bools = {l for l, d in enumerate(body.locals) if d.get("ty") == "bool"}
+        tracked = set(bools)
+        # a local is tracked when every definition is a constant or a copy of a boolean local; borrowed ones are not
+        for blk in body.blocks:
+            for st in blk["stmts"]:
+                rv = st.get("rv")
+                if rv is None:
+                    continue
+                if rv["k"] in ("ref", "rawptr") and rv["place"][0] in tracked:
+                    tracked.discard(rv["place"][0])
+        seen = set()
+        out = set()
+        todo = [(start, frozenset())]
+        while todo and len(seen) < limit:
+            bb, st8 = todo.pop()
+            if (bb, st8) in seen or bb in blocked:
+                continue
+            seen.add((bb, st8))
+            out.add(bb)
+            state = dict(st8)
+            blk = body.blocks[bb]
+            for st in blk["stmts"]:
+                rv = st.get("rv")
+                p_ = tuple(st["p"])
+                if rv is None or len(p_) != 1 or p_[0] not in tracked:
+                    if rv is not None and p_ and p_[0] in state and len(p_) > 1:
+                        state.pop(p_[0], None)
+                    continue
+                l = p_[0]
+                v = None
+                if rv["k"] == "use":
+                    k = rv["op"].get("k")
+                    if isinstance(k, dict) and isinstance(k.get("bool"), bool):
+                        v = k["bool"]
+                    else:
+                        src = place_of(rv["op"])
+                        if src is not None and len(src) == 1 and src[0] in state:
+                            v = state[src[0]]
+                elif rv["k"] == "un" and rv.get("op") == "Not":
+                    src = place_of(rv["a"])
+                    if src is not None and len(src) == 1 and src[0] in state:
+                        v = not state[src[0]]
+                if v is None:
+                    state.pop(l, None)
+                else:
+                    state[l] = v
+            t = blk["term"]
+            if t is None:
+                continue
+            if t["k"] == "call" and len(t["dest"]) >= 1:
+                state.pop(t["dest"][0], None)
+            nxt = None
+            if t["k"] == "switch":
+                src = place_of(t["discr"])
+                if src is not None and len(src) == 1 and src[0] in state:
+                    val = 1 if state[src[0]] else 0
+                    tg = [x for v_, x in t["targets"] if int(v_) == val]
+                    nxt = tg[:1] if tg else [t["otherwise"]]
+            if nxt is None:
+                nxt = self.succ[bb]
+            f8 = frozenset(state.items())
+            for x in nxt:
+                todo.append((x, f8))
+        return out
+
     def reachable_avoiding_edges(self, start, bad_edges):
         seen = set()
         todo = [start]
